@@ -73,7 +73,7 @@ def gen(name, g):
 // ring origins, any set of live listeners). The obligations are the generic ones of /verif/kani/mutiny_stream.rs (`kit`).
 {'// reserve_slot / try_send_reserved / try_cancel_slot_reserve `panic!` upstream for this channel (not implemented): no reserved-slot harnesses.' if g['kind'] == 'arc' else ''}
 // @module {g['module']}
-// @sizes multi_proofs: n2m1={'quick' if g['kind'] == 'arc' else 'thorough'} n2m2=thorough n4m2=thorough
+// @sizes multi_proofs: n2m1={'quick' if g['kind'] == 'arc' else 'thorough'} n2m2={'thorough' if g['kind'] == 'arc' else 'extended'} n4m2=extended
 // @jobs 5 thorough=2
 #[allow(unused_imports)] use super::*;
 #[allow(unused_imports)] use crate::mutiny_stream::verif_hooks::{{self as ms, MultiModel, Entry}};
